@@ -1,6 +1,7 @@
 import Amgcl.Properties.C01
 import Amgcl.Properties.C05e
 import Amgcl.Proofs.SolverGMRESC
+import Amgcl.Proofs.SolverLGMRESC
 import Amgcl.Model.SolverAsFound
 import Amgcl.Proofs.KrylovCGStarHerm
 import Amgcl.Proofs.KrylovCGExample
@@ -17,8 +18,9 @@ functions at the Gaussian rationals against the real templates at `std::complex<
   BiCGStab / Richardson are statements about `axpby` / `spmv` and hold for every function `ip`; they are instantiated at `ipC conj`
   (`cg_cplx_truthful`, `bicgstab_cplx_truthful`, `richardson_cplx_truthful`).  For GMRES / FGMRES the model with the conjugations of
   `givens_rotations.hpp` written out (`Model/SolverGMRESC.lean`, extra parameter `conj`; at `conj = id` it IS the real-valued model:
-  `gmresC_id`, `fgmresC_id`) the theorem is re-proved: the returned state has just been through `head` (`gmres_cplx_truthful`,
-  `fgmres_cplx_truthful`).
+  `gmresC_id`, `fgmresC_id`, `lgmresC_id`) the theorem is re-proved: the returned state has just been through `head`
+  (`gmres_cplx_truthful`, `fgmres_cplx_truthful`, `lgmres_cplx_truthful`).  NOT re-proved for the `…C` models of IDR(s) and BiCGStab(L)
+  (`Model/SolverCplx2.lean`, `Model/SolverBiCGStabLC.lean`): there truthfulness at `std::complex<Q>` is the harness oracle.
 * **(b)** `cg_sesq_conjugacy` / `cg_cplx_conjugacy`: CG's residuals are mutually `P`-orthogonal and its search directions mutually
   `A`-conjugate with respect to the sesquilinear form, for the CG MODEL (`Model/SolverCG.lean`, which needs no `conj` parameter: the
   conjugation lives in `ip`).  The proof of `C05b.cg_conjugacy` does NOT transfer literally (it scales the second argument of a
@@ -112,6 +114,29 @@ theorem fgmres_cplx_truthful (conj : K → K) (prm : FGMRES.Params K) (ip : Vec 
     obtain ⟨_, i2⟩ := FGMRES.finalC_inv conj prm ip sqrt A P ws f x0 nf
     simp only [reported]
     rw [← h2, ← h3, i2]
+
+/-- **LGMRES** likewise — whatever augmentation vectors the object carries -/
+theorem lgmres_cplx_truthful (conj : K → K) (prm : LGMRES.Params K) (ip : Vec K → Vec K → K) (sqrt : K → K) (eps : K) (A : CRS K)
+    (P : Vec K → Vec K) (ws : LGMRES.Work K) (f x0 : Vec K) (it : Nat) (res : K) (x : Vec K) (w : LGMRES.Work K)
+    (h : LGMRES.solveC conj prm ip sqrt eps A P ws f x0 = .ok (it, res, x, w)) :
+    res = reported (prologueA prm.nsSearch ip sqrt eps f) (nrmA ip sqrt (BiCGStab.Rf prm.pside P f A x)) := by
+  rw [LGMRES.solveC, Run.toExcept_ok] at h
+  cases hp : prologueA prm.nsSearch ip sqrt eps f with
+  | trivial n =>
+    rw [LGMRES.runC_trivial _ _ _ _ _ _ _ _ _ _ n hp] at h
+    simp only [Prod.mk.injEq, Except.ok.injEq] at h
+    simp [reported, h.1.2]
+  | go nf =>
+    rw [LGMRES.runC_go _ _ _ _ _ _ _ _ _ _ nf hp] at h
+    simp only [Prod.mk.injEq, Except.ok.injEq] at h
+    obtain ⟨⟨_, h2⟩, h3, _⟩ := h
+    obtain ⟨_, i2⟩ := LGMRES.finalC_inv conj prm ip sqrt A P (LGMRES.reset prm ws) f x0 nf
+    simp only [reported]
+    rw [← h2, ← h3, i2]
+
+theorem lgmresC_id (prm : LGMRES.Params K) (ip : Vec K → Vec K → K) (sqrt : K → K) (eps : K) (A : CRS K) (P : Vec K → Vec K)
+    (ws : LGMRES.Work K) (f x0 : Vec K) : LGMRES.runC id prm ip sqrt eps A P ws f x0 = LGMRES.run prm ip sqrt eps A P ws f x0 :=
+  LGMRES.runC_id prm ip sqrt eps A P ws f x0
 
 /-- CG / GMRES never throw: the hypothesis `solve … = .ok …` of the truthfulness theorems is satisfiable for every input -/
 theorem cg_solve_ok (prm : CG.Params K) (ip : Vec K → Vec K → K) (sqrt : K → K) (eps : K) (A : CRS K) (P : Vec K → Vec K)
